@@ -114,6 +114,7 @@ func init() {
 			rulePanicInventory(c)
 			c.Clause("C02-D5")
 			ruleVersionLiteral(c)
+			ruleEncoderOneOf(c)
 			c.Clause("C02-D6")
 			ruleReplyFilter(c)
 			c.Clause("C02-D7")
@@ -132,6 +133,7 @@ func init() {
 			ruleVersionLiteral(c)
 			c.Clause("C13-D2")
 			ruleEncoderWrites(c)
+			ruleEncoderOneOf(c)
 			ruleConstantFormats(c)
 			ruleBareObject(c)
 			c.Clause("C13-D3")
